@@ -25,12 +25,13 @@ META = dict(
 
 
 def run(c):
-    r, cov = oc.design_check(c)
+    design = oc.Background(oc.design_check, c)         # exhaustive design check runs while the real code is driven
     progs = oc.sim_programs(c, num=c.pick(6, 24), depth=c.pick(50, 80))
     binp = c.build("orderedstore")
     jobs = oc.c17_jobs(c, progs)
     traces, stats = oc.run_driver(c, binp, jobs, "c17")
     rej, seen, seen2 = oc.validate_and_report(c, traces)
+    r, cov = design.result()
     for name, evs in traces[:1] + traces[len(traces) // 2: len(traces) // 2 + 1]:
         c.sample(dict(trace=name, setup=evs[0], calls=[oc.brief(e) for e in evs[1:14]]))
     oc.coverage(c, stats, traces, seen, dict(
